@@ -28,7 +28,8 @@ ID = "C18"
 LEVEL = "exploration"
 RULE = ("case = DUT (MagicMemoryCL | stream.MagicMemoryRTL | MagicMemoryFL) x ports 1..4 x latency 0..8 x stall "
         "probability {0,.2,.5,.8} x per-port seeded streams of READ/WRITE (len 1..4, straddling, overlapping in a "
-        "64-byte window) and word AMOs x source gaps x sink back-pressure x scheduler; faults stop at a seeded cycle; "
+        "64-byte window) and word AMOs (in half of the cases a pool of 1-3 values shared by full-word writes and AMO "
+        "operands on three hot words, so that an operand regularly equals the stored word) x source gaps x sink back-pressure x scheduler; faults stop at a seeded cycle; "
         "non-trivial = >=2 ports touched a common byte with at least one write, or >=1 read returned non-zero data "
         "written earlier; distinct = case digest")
 TIERS = {"quick": {"runs": 2400, "budget_s": 100, "chunk": 4},
